@@ -3,6 +3,7 @@ import DuneVerif.Proofs.C06System
 import DuneVerif.Proofs.C06Rank
 import DuneVerif.Proofs.C06Fix
 import DuneVerif.Proofs.C06Life
+import DuneVerif.Proofs.C06Quiet
 /-!
 # C06 — VariableSizeCommunicator delivers every item intact for any sizes / buffer size, and returns
 
@@ -500,72 +501,83 @@ example :
 /-! ## object histories (round three)
 
 The buffer size `B` and the interface map of the theorems above are data members of the object the call is made on
-(`maxBufferSize_`, `interface_`), and the messages travel on its private communicator.  The object may have been built
-by any of the constructors, copied and assigned to any number of times (Model/C06Life.lean). -/
+(`maxBufferSize_`, `interface_`), and the messages travel on its private communicator `communicator_`, a duplicate of
+the communicator the user chose.  The object may have been built by any of the constructors, copied and assigned to
+any number of times (Model/C06Life.lean). -/
 
 /-- **object_histories.**  For every program of constructor calls (with or without a buffer size argument, `dflt` being
-    the default: 32768 or the value of DUNE_PARALLEL_MAX_COMMUNICATION_BUFFER_SIZE), copy constructions, assignments
-    (self-assignments included), destructions and communications:
+    the default: 32768 or the value of DUNE_PARALLEL_MAX_COMMUNICATION_BUFFER_SIZE; on any of the `users` communicators
+    the user owns), copy constructions, assignments (self-assignments included), destructions and communications:
     the class accepts exactly the programs the value semantics accepts, and afterwards
-    (1) every object's buffer size and map are what value semantics says (a copy / an assignment takes over both from
-        its source, whatever the target was configured with before),
+    (1) every object's buffer size, map and process group (the user communicator its own communicator descends from)
+        are what value semantics says: a copy / an assignment takes over all three from its source, whatever the
+        target was configured with before,
     (2) no MPI call ever got a communicator that was freed or never created,
-    (3) every object owns a live communicator that is not the user's, no two objects share one (the class works on a
-        private duplicate whatever was copied from what and destroyed since),
+    (3) every object owns a live communicator that is not one of the user's, no two objects share one (the class works
+        on a private duplicate whatever was copied from what and destroyed since),
     (4) no communicator is leaked: the live handles are exactly the ones the live objects hold, once each. -/
-theorem object_histories (dflt : Nat) (prog : List LifeOp) :
-    match lifeExec dflt World.init prog, specExec dflt (fun _ => none) prog with
+theorem object_histories (users dflt : Nat) (prog : List LifeOp) :
+    match lifeExec dflt (World.init users) prog, specExec users dflt (fun _ => none) prog with
     | some w, some σ =>
-        (∀ s, (w.slots s).map VscObj.cfg = σ s) ∧
+        (∀ s, (w.slots s).map w.cfg = σ s) ∧
         w.fault = false ∧
-        (∀ s o, w.slots s = some o → o.comm ∈ w.liveComms ∧ o.comm ≠ 0) ∧
+        (∀ s o, w.slots s = some o → o.comm ∈ w.liveComms ∧ users ≤ o.comm) ∧
         (∀ s t o o', w.slots s = some o → w.slots t = some o' → o.comm = o'.comm → s = t) ∧
         (∀ c ∈ w.liveComms, ∃ s o, w.slots s = some o ∧ o.comm = c) ∧ w.liveComms.Nodup
     | none, none => True
     | _, _ => False := by
-  have h := lifeExec_inv dflt prog World.init (fun _ => none) LifeInv.init
-  cases h1 : lifeExec dflt World.init prog <;> cases h2 : specExec dflt (fun _ => none) prog <;> rw [h1, h2] at h
+  have h := lifeExec_inv dflt prog (World.init users) (fun _ => none) (LifeInv.init users)
+  have hu : (World.init users).users = users := rfl
+  rw [hu] at h
+  cases h1 : lifeExec dflt (World.init users) prog <;> cases h2 : specExec users dflt (fun _ => none) prog <;>
+    rw [h1, h2] at h
   · trivial
   · exact h
   · exact h
-  · exact ⟨h.cfg, h.nofault, fun s o hs => ⟨h.comm.alive s o hs, (h.comm.fresh _ (h.comm.alive s o hs)).2⟩,
-      h.comm.priv, h.comm.noleak, h.comm.nodup⟩
+  · obtain ⟨h, hw⟩ := h
+    refine ⟨h.cfg, h.nofault, fun s o hs => ⟨h.comm.alive s o hs, ?_⟩, h.comm.priv, h.comm.noleak, h.comm.nodup⟩
+    have := (h.comm.fresh _ (h.comm.alive s o hs)).1
+    rw [hw] at this
+    exact this
 
 /-- non-vacuity, and the history the round-two check never produced: slot 0 is built with a buffer of 2 items over a
-    decoy map (1), used, then assigned from an object with buffer 16 over the case's map (0) whose original is destroyed
-    afterwards: slot 0 then has buffer 16 and map 0 on a communicator of its own (handle 3; 1 and 2 were freed). -/
+    decoy map (1) on the user's second communicator (1), used, then assigned from an object with buffer 16 over the
+    case's map (0) on the first communicator (0), whose original is destroyed afterwards: slot 0 then has buffer 16,
+    map 0 and the process group of communicator 0, on a handle of its own (4; handles 2 and 3 were freed). -/
 example :
-    (lifeExec 32768 World.init
-        [.construct 0 (some 2) 1, .use 0, .construct 1 (some 16) 0, .assign 0 0, .assign 0 1, .destroy 1, .use 0]).map
-      (fun w => (w.slots 0, w.slots 1, w.liveComms, w.fault))
-      = some (some ⟨16, 0, 3⟩, none, [3], false) := by decide
+    (lifeExec 32768 (World.init 2)
+        [.construct 0 (some 2) 1 1, .use 0, .construct 1 (some 16) 0 0, .assign 0 0, .assign 0 1, .destroy 1, .use 0]).map
+      (fun w => ((w.slots 0).map fun o => (o, objCfg w.origin o), w.slots 1, w.liveComms, w.fault))
+      = some (some (⟨16, 0, 4⟩, (16, 0, 0)), none, [4], false) := by decide
 
 /-- the model notices what the invariant excludes: an `operator=` without the self-assignment test would free its own
     communicator and duplicate the dead handle (written out with the table operations) -/
-example : (((World.init.dup 0).2.free 1).dup 1).2.fault = true := by decide
+example : ((((World.init 1).dup 0).2.free 1).dup 1).2.fault = true := by decide
 
 /-- the default constructors take the configured default -/
-example : ((lifeExec 5 World.init [.construct 3 none 0, .copy 0 3, .destroy 3]).bind (·.slots 0)).map VscObj.cfg
-    = some (5, 0) := by decide
+example : ((lifeExec 5 (World.init 1) [.construct 3 none 0 0, .copy 0 3, .destroy 3]).bind (·.slots 0)).map
+    (fun o => (o.maxBufferSize, o.interface)) = some (5, 0) := by decide
 
 /-- **delivery_after_history.**  `delivery_both_directions` for a call made on an object with an arbitrary history: if
-    value semantics says slot `s` holds an object with buffer size `Bs` and map `m`, the object the class actually has
-    there carries exactly this configuration on a live private communicator, and with its `maxBufferSize` as the buffer
-    size what rank `q` scatters for its neighbour entry `e` is `expectedCalls` and the exchange returns — provided `Bs`
-    can hold the largest index (all ranks run the same program, so all use the same size). -/
-theorem delivery_after_history (dflt : Nat) (prog : List LifeOp) (w : World) (σ : SpecWorld)
-    (hw : lifeExec dflt World.init prog = some w) (hσ : specExec dflt (fun _ => none) prog = some σ)
-    (s Bs m : Nat) (hs : σ s = some (Bs, m)) (hB : 0 < Bs)
+    value semantics says slot `s` holds an object with buffer size `Bs`, map `m` and process group `u`, the object the
+    class actually has there carries exactly this configuration on a live private communicator, and with its
+    `maxBufferSize` as the buffer size what rank `q` scatters for its neighbour entry `e` is `expectedCalls` and the
+    exchange returns — provided `Bs` can hold the largest index (all ranks run the same program, so all use the same
+    size, map and group). -/
+theorem delivery_after_history (users dflt : Nat) (prog : List LifeOp) (w : World) (σ : SpecWorld)
+    (hw : lifeExec dflt (World.init users) prog = some w) (hσ : specExec users dflt (fun _ => none) prog = some σ)
+    (s Bs m u : Nat) (hs : σ s = some (Bs, m, u)) (hB : 0 < Bs)
     (fwd : Bool) (ranks : List (RankData α)) (q : Nat)
     (e : IfaceEntry) (pd : RankData α) (hpd : ranks[e.rank]? = some pd)
     (pe : IfaceEntry) (hpe : pe ∈ pd.imap) (hrank : pe.rank = q) (huniq : ∀ x ∈ pd.imap, x.rank = q → x = pe)
     (hlen : (e.recv fwd).length = (pe.send fwd).length)
     (hvar : pd.handle.fixed = false → ∀ i ∈ pe.send fwd, pd.handle.size i ≤ Bs)
     (f : Nat) (hfix : pd.handle.fixed = true → f ≠ 0 ∧ f ≤ Bs ∧ ∀ x ∈ pd.imap, ∀ i ∈ x.send fwd, pd.handle.size i = f) :
-    ∃ o, w.slots s = some o ∧ o.maxBufferSize = Bs ∧ o.interface = m ∧ w.valid o.comm = true ∧ w.fault = false ∧
+    ∃ o, w.slots s = some o ∧ o.maxBufferSize = Bs ∧ o.interface = m ∧ w.origin o.comm = u ∧
+      w.valid o.comm = true ∧ w.fault = false ∧
       ∃ r, receiveFrom true o.maxBufferSize fwd ranks q e = some r ∧
         r.calls = expectedCalls pd.handle (pe.send fwd) (e.recv fwd) ∧ r.returns = true := by
-  have h := object_histories dflt prog
+  have h := object_histories users dflt prog
   rw [hw, hσ] at h
   obtain ⟨hcfg, hfault, halive, _, _, _⟩ := h
   have hc := hcfg s
@@ -574,11 +586,77 @@ theorem delivery_after_history (dflt : Nat) (prog : List LifeOp) (w : World) (σ
   | none => rw [ho] at hc; cases hc
   | some o =>
     rw [ho] at hc
-    have hc' : o.cfg = (Bs, m) := by simpa using hc
+    have hc' : objCfg w.origin o = (Bs, m, u) := by simpa using hc
     have hb : o.maxBufferSize = Bs := congrArg Prod.fst hc'
-    have hm : o.interface = m := congrArg Prod.snd hc'
-    refine ⟨o, rfl, hb, hm, valid_of_mem w _ (halive s o ho).1, hfault, ?_⟩
+    have hm : o.interface = m := congrArg (fun x => x.2.1) hc'
+    have hu : w.origin o.comm = u := congrArg (fun x => x.2.2) hc'
+    refine ⟨o, rfl, hb, hm, hu, valid_of_mem w _ (halive s o ho).1, hfault, ?_⟩
     rw [hb]
     exact delivery_both_directions Bs hB fwd ranks q e pd hpd pe hpe hrank huniq hlen hvar f hfix
+
+/-! ## a rank that has returned is quiet (round three)
+
+Several calls on one communicator object (and an object may be used, assigned to, and used again) share the
+communicator and the tags 933399 / 933881.  What keeps a call apart from the one before it on the same object: -/
+
+/-- **returned_rank_quiescent** (variable size).  In every reachable state of the rank-level system, for every link
+    `src → dst`:
+    * if `src` has returned, its size and data send requests are null, nothing it sent is in the FIFO of the link, and
+      `dst` has **no receive posted** on the link — so a message `src` sends in a later call cannot be matched with a
+      receive of this call;
+    * if `dst` has returned, it has no receive request on the link and the FIFO is empty — so a receive `dst` posts in a
+      later call cannot get a message of this call;
+    and a rank that has returned stays returned along every continuation, so both facts hold for the rest of the call
+    whatever the other ranks still do. -/
+theorem returned_rank_quiescent (B n : Nat) (hB : 0 < B) (specs : List (LinkSpec α)) (hv : ValidLinks B n specs)
+    (sched : List GAct) (g' : VarSys α) (he : varExec B specs (varInit B n specs) sched = some g') :
+    (∀ (i : Nat) (l : LinkSpec α) (x : LinkSt α), specs[i]? = some l → g'.links[i]? = some x →
+      (g'.phase.getD l.src 3 = 2 →
+        x.sz.sreq = .null ∧ x.dt.sreq = .null ∧ x.sz.chan = [] ∧ x.dt.chan = [] ∧
+        x.sz.rreq.isPosted = false ∧ x.dt.rreq.isPosted = false) ∧
+      (g'.phase.getD l.dst 3 = 2 → x.sz.rreq = .null ∧ x.dt.rreq = .null ∧ x.sz.chan = [] ∧ x.dt.chan = [])) ∧
+    (∀ sched2 g'', varExec B specs g' sched2 = some g'' → ∀ p, g'.phase.getD p 3 = 2 → g''.phase.getD p 3 = 2) := by
+  obtain ⟨hI, _⟩ := vexec_inv hB sched _ g' (varInit_inv B n hB specs hv) he
+  refine ⟨fun i l x hl hx => ?_, fun sched2 g'' he2 => varExec_returned B specs sched2 g' g'' he2⟩
+  have hL := hI.links.2 i l x hl hx
+  exact ⟨linkInv_src_returned hL, linkInv_dst_returned hL⟩
+
+/-- non-vacuity: two ranks, link 0 → 1 with two data rounds (`B = 2`, sizes 2 and 1) and the empty link 1 → 0; rank 0
+    returns while rank 1 has not even processed the last message (`recvDone` still to come): the link is quiet
+    (send request null, FIFO empty, nothing posted) although rank 1 is still in its data loop. -/
+example :
+    let h : Handle Nat := ⟨false, fun i => List.replicate (if i = 0 then 2 else 1) (10 + i)⟩
+    let specs : List (LinkSpec Nat) := [⟨0, 1, h, [0, 1], [5, 6]⟩, ⟨1, 0, h, [], []⟩]
+    ((varExec 2 specs (varInit 2 2 specs)
+        [.size 0 .deliver, .size 0 .sendDone, .size 0 .recvDone, .advance 0, .advance 1, .data 0 .deliver,
+         .data 0 .sendDone, .data 0 .recvDone, .data 0 .deliver, .data 0 .sendDone, .ret 0]).map fun g =>
+      (g.phase, g.links.map fun x => (x.dt.sreq == .null, x.dt.chan.isEmpty, x.dt.rreq.isPosted)))
+      = some ([2, 1], [(true, true, false), (true, true, false)]) := by decide
+
+/-- **returned_rank_quiescent_fixed** (fixed size).  The same for `communicateFixedSize`: if `src` has returned, its
+    scalar has been matched (`MPI_Waitall`), its data send request is null, the data FIFO is empty and `dst` has no data
+    receive posted; if `dst` has returned, it has processed the scalar, has no data receive request and the FIFO is
+    empty; and a returned rank stays returned. -/
+theorem returned_rank_quiescent_fixed (B n : Nat) (specs : List (FLinkSpec α)) (hv : ValidFLinks B n specs)
+    (sched : List FAct) (g' : FixSys α) (he : fixExec B specs (fixInit B n specs) sched = some g') :
+    (∀ (i : Nat) (l : FLinkSpec α) (x : FLinkSt α), specs[i]? = some l → g'.links[i]? = some x →
+      (g'.phase.getD l.src 3 = 1 →
+        x.sc ≠ .pending ∧ x.dt.sreq = .null ∧ x.dt.chan = [] ∧ x.dt.rreq.isPosted = false) ∧
+      (g'.phase.getD l.dst 3 = 1 → x.sc = .seen ∧ x.dt.rreq = .null ∧ x.dt.chan = [])) ∧
+    (∀ sched2 g'', fixExec B specs g' sched2 = some g'' → ∀ p, g'.phase.getD p 3 = 1 → g''.phase.getD p 3 = 1) := by
+  obtain ⟨hI, _⟩ := fexec_inv sched _ g' (fixInit_inv B n specs hv) he
+  refine ⟨fun i l x hl hx => ?_, fun sched2 g'' he2 => fixExec_returned B specs sched2 g' g'' he2⟩
+  have hL := hI.links.2 i l x hl hx
+  exact ⟨flinkInv_src_returned hL, flinkInv_dst_returned hL⟩
+
+/-- non-vacuity: rank 1 (one index of 3 items for rank 0; from rank 0 only the scalar) returns while rank 0 has not yet
+    processed the data message it received (`recvDone` of link 0 still to come): link 1 → 0 is already quiet. -/
+example :
+    let specs : List (FLinkSpec Nat) :=
+      [⟨1, 0, ⟨true, fun i => [i, i, i]⟩, 3, 2, [7], [9]⟩, ⟨0, 1, ⟨true, fun i => [i, i]⟩, 2, 3, [], []⟩]
+    ((fixExec 5 specs (fixInit 5 2 specs)
+        [.scalar 0, .scalar 1, .seen 0, .seen 1, .data 0 .deliver, .data 0 .sendDone, .ret 1]).map fun g =>
+      (g.phase, g.links.map fun x => (x.sc, x.dt.sreq == .null, x.dt.chan.isEmpty, x.dt.rreq.isPosted)))
+      = some ([0, 1], [(.seen, true, true, false), (.seen, true, true, false)]) := by decide
 
 end DV.C06
